@@ -617,14 +617,12 @@ def fine_variant(name, c):
     return None
 
 
-def integer_series_failures(name, ad, c):
+def integer_series_failures(name, ad, c, also=()):
     """C01 on the implementation: a series of whole numbers may arrive integer-typed (list of ints, int32 / int64
     array); the call must still return, with the flags of the float64 call"""
-    if name == "valid_range_test" and (c.get("lo") is None or c.get("hi") is None):
-        return 0, []                   # known finding F20 (recorded for C15): integer dtype cannot hold a missing bound
     base, _ = ad.impl(c)
     fails, n_eval = [], 0
-    for dc in ("int_list", "int64", "int32"):
+    for dc in ("int_list", "int64", "int32") + tuple(also):
         tr, applied = carrier_transform(dc, None, None)
         core.KW_TRANSFORM = tr
         try:
